@@ -5,9 +5,41 @@ PROPS = ["C07"]
 PROFILES = [(3, {"script_prob": 0.9, "share_fd_prob": 0.03, "gap_frac": 0.15}), (1, {})]
 
 
+def transient_stage(chk, st):
+    """a TransientSource whose child answered PostAction::Disable: the child stays out of the poller until the parent is enabled
+    again - update() of the parent must not bring it back (the C18 harness and its judge `disabled-child-registered-again`)"""
+    import p_c18
+    import vlib
+    cases = p_c18.gen_cases("quick", chk.seed)
+    impl, _ = vlib.run_impl(["transient"], cases)
+    by_case = dict(zip(cases, impl))
+    bad = []
+    for c in cases:
+        fs = p_c18.judge_disabled_stays_out(c, by_case)
+        if fs:
+            bad.append((c, by_case[c], fs))
+    chk.cov["transient_disabled_child_cases"] = {"cases": len(cases), "failing": len(bad)}
+    if bad:
+        c, i, fs = min(bad, key=lambda x: len(x[0]))
+        chk.violation("oracle-transient", "C07 violated on the real code: %s\ntransient case: %s\n# implementation observations: %s\n(%d failing cases)"
+                      % (fs[0], c, i, len(bad)))
+
+
 def main(tier, seed):
-    return p_seqprops.run("C07", tier, seed, PROFILES, props=PROPS)
+    return p_seqprops.run("C07", tier, seed, PROFILES, props=PROPS, extra_front=transient_stage)
 
 
 def replay(path):
+    txt = open(path).read()
+    if "transient case:" in txt:
+        import p_c18
+        import vlib
+        vlib.build_harness()
+        case = [l.split(":", 1)[1].strip() for l in txt.split("\n") if l.startswith("transient case:")][0]
+        ws = case.split()
+        cases = [" ".join(ws[:1 + n]) for n in range(len(ws))]
+        impl, _ = vlib.run_impl(["transient"], cases)
+        fs = p_c18.judge_disabled_stays_out(case, dict(zip(cases, impl)))
+        print(case, "->", impl[-1], "|", fs or "ok")
+        return 1 if fs else 0
     return p_seqprops.replay("C07", path, props=PROPS)
